@@ -68,11 +68,12 @@ def call(f, *a):
 
 
 class Pt:
-    __slots__ = ("mech", "params", "value", "rep", "meas", "law")
+    __slots__ = ("mech", "params", "value", "rep", "meas", "law", "backend")
 
     def __init__(self, mech, params, value):
         self.mech, self.params, self.value = mech, params, value
         self.rep, self.meas, self.law = {}, {}, None
+        self.backend = "system"
 
     def key(self):
         return (self.mech, f2b(self.value)) + tuple(sorted((k, f2b(v) if isinstance(v, float) else v)
@@ -85,7 +86,7 @@ def geometric_ratio(params):
     """r = e^{scale} of the two-sided geometric pmf P[k] ~ r^|k|, read off the sampler: the step function
     u -> randomise(0) jumps from 1 to 0 at u* = 1/2 + r/(1+r) (u in (1/2, 1)); located on the double grid."""
     def out(u):
-        m = K2.mk("Geometric", params, random_state=seams.ScriptedSystemRandom([u]))
+        m = K2.mk("Geometric", params, random_state=K2.srng([u]))
         return int(quiet(m.randomise, 0))
     top = 1.0 - 2 ** -53
     if out(top) != 0:
@@ -198,6 +199,145 @@ FIXED = [
 ]
 
 
+
+# =========================================================================================== the sampler's post-processing map
+
+def unit_uniforms(L):
+    """four uniforms whose standard Laplace variate log(1-u1)cos(pi u2) + log(1-u3)cos(pi u4) is L (|L| <= 72)"""
+    h = abs(L)
+    h1, h2 = (h, 0.0) if h <= 36.0 else (36.0, min(h - 36.0, 36.0))
+    c = 0.0 if L < 0 else 1.0 - 2 ** -53              # cos(pi c) = +1 / -1
+    return (-math.expm1(-h1), c, -math.expm1(-h2), c if h2 else 0.5)
+
+
+def probe(mech, params, value, L):
+    """(z, released): the plain noisy value z = value - scale * L that Laplace.randomise produces for these uniforms, and
+    what the truncated / folded mechanism releases for the very same uniforms"""
+    us = unit_uniforms(L)
+    base = {k: params[k] for k in ("epsilon", "delta", "sensitivity")}
+    z = float(quiet(M.Laplace(**base, random_state=K2.srng(us)).randomise, value))
+    g = float(quiet(K2.mk(mech, params, random_state=K2.srng(us)).randomise, value))
+    return z, g
+
+
+def ref_map(mech, z, lo, hi):
+    z = d(z)
+    if mech == "LaplaceTruncated":
+        return min(max(z, lo), hi)
+    return cl.fold_point(z, lo, hi)
+
+
+def probe_map(pt, max_segments=80):
+    """validate the post-processing map of the SAMPLER (clamp / reflection) against the reference map pointwise, over
+    noise values out to 30 scales (dozens of domain widths when the scale is comparable to the width), and — when the
+    kinks in that range are few enough — rebuild the moments of the output law from (measured scale, measured map):
+    on every segment between two reference kinks the released value is fitted as an affine function of z through probes."""
+    mech, p, v = pt.mech, pt.params, pt.value
+    b = pt.meas.get("scale")
+    if not (b and b > 0 and math.isfinite(b)) or not math.isfinite(v):
+        return
+    lo, hi = d(p["lower"]), d(p["upper"])
+    W = hi - lo
+    dv, db = d(v), d(b)
+    R = 30 * db
+    zmin, zmax = dv - R, dv + R
+    kinks = []
+    if mech == "LaplaceTruncated" or W == cl.INF:
+        kinks = [c for c in (lo, hi) if c not in (cl.INF, cl.NINF) and zmin < c < zmax]
+        full = True
+    elif W == 0:
+        full = False
+    else:
+        n = int(2 * R / W) + 2
+        full = n <= max_segments
+        if full:
+            k0 = int(((zmin - lo) / W).to_integral_value(rounding="ROUND_FLOOR"))
+            kinks = [lo + k * W for k in range(k0, k0 + n + 2) if zmin < lo + k * W < zmax]
+    mism = []
+    tolf = lambda *xs: 32 * math.ulp(max(1e-300, *[abs(float(x)) for x in xs if math.isfinite(float(x))]))
+
+    def one(target):
+        L = -float((target - dv) / db)
+        if abs(L) > 71.5:
+            return None
+        z, g = probe(mech, p, v, L)
+        r = ref_map(mech, z, lo, hi)
+        pt.meas["map_probes"] = pt.meas.get("map_probes", 0) + 1
+        if abs(d(g) - r) > d(tolf(z, g, p["lower"], p["upper"], v)):
+            if len(mism) < 3:
+                mism.append({"noise_in_widths": float((d(z) - dv) / W) if W not in (0, cl.INF) else None, "z": z,
+                             "released": g, "reference": float(r)})
+        return z, g
+    if not full:
+        # too many kinks in range for a reconstruction: pointwise probes spread over the whole range (near and far)
+        rr = gen.SplitMix64(f2b(v) ^ f2b(b))
+        for _ in range(24):
+            one(dv + R * d(rr.uniform(-1, 1)) * d(rr.choice([1.0, 1.0, 0.2, 0.02])))
+        pt.meas["map_mismatch"] = mism
+        return
+    bounds = [zmin] + sorted(kinks) + [zmax]
+    m1 = m2 = D(0)
+    ok = True
+    base = cl.laplace(dv, db)
+    nseg = len(bounds) - 1
+    for i, (l, r) in enumerate(zip(bounds, bounds[1:])):
+        pr = [one(l + (r - l) * f) for f in (D(1) / 6, D(1) / 2, D(5) / 6)]
+        if any(x is None for x in pr) or not (pr[0][0] < pr[1][0] < pr[2][0]):
+            ok = False
+            continue
+        (z1, g1), (z2, g2), (z3, g3) = pr
+        sl = (g3 - g1) / (z3 - z1)
+        s_ = min((-1, 0, 1), key=lambda c: abs(c - sl))
+        if abs(sl - s_) > 1e-6 or abs((g1 + s_ * (z2 - z1)) - g2) > tolf(z1, z2, g1, g2, p["lower"], p["upper"]) * 4:
+            ok = False                      # not affine with slope in {-1, 0, 1} on this segment: pointwise verdict only
+            continue
+        ll, rr_ = l, r
+        if mech == "LaplaceTruncated" or W == cl.INF:       # the outer pieces are affine all the way out
+            if i == 0:
+                ll = cl.NINF
+            if i == nseg - 1:
+                rr_ = cl.INF
+        piece = cl.Law(cl._restrict(base, ll, rr_))
+        q0, q1, q2 = piece.moment(0, dv), piece.moment(1, dv), piece.moment(2, dv)
+        c0 = d(g1) - dv - s_ * (d(z1) - dv)                 # released - v = c0 + s (z - v)
+        m1 += c0 * q0 + s_ * q1
+        m2 += c0 * c0 * q0 + 2 * c0 * s_ * q1 + s_ * s_ * q2
+    pt.meas["map_mismatch"] = mism
+    if ok and mism:
+        # moments of the law rebuilt from (measured scale, measured map); only needed — and only quoted — when the map
+        # is not the reference map (otherwise the exact reference law is integrated, free of the rounding of the probes)
+        pt.meas["map_moments"] = (K2.fmt(m1), K2.fmt(m2 - m1 * m1))
+
+
+def probe_acceptance(pt):
+    """LaplaceBoundedDomain draws by rejection: a first draw inside [lower, upper] must be released, one outside must be
+    rejected (the second scripted batch is then released) — the acceptance region IS the post-processing of this sampler"""
+    p = pt.params
+    b = pt.meas.get("scale")
+    lo, hi = float(p["lower"]), float(p["upper"])
+    if not (b and b > 0 and math.isfinite(b) and math.isfinite(lo) and math.isfinite(hi) and lo < hi):
+        return
+    v = (lo + hi) / 2
+    dlt = min(0.05 * (hi - lo), 0.05 * b)
+    small = K2.small_uniforms(min(1.38, 0.1 * (hi - lo) / b))
+    us2 = (small[0], small[0], 0.0, 0.0, 0.0, 0.0, 0.5, 0.5)
+    fallback = v + b * K2.lap_unit(small)
+    mism = []
+    for target, inside in ((lo - dlt, False), (lo + dlt, True), (hi - dlt, True), (hi + dlt, False)):
+        L = (target - v) / b
+        if abs(L) > 71.5:
+            continue
+        us1 = unit_uniforms(L)
+        z = v + b * K2.lap_unit(us1)
+        if (lo <= z <= hi) != inside:
+            continue
+        out = float(quiet(K2.mk("LaplaceBoundedDomain", p, random_state=K2.srng(us1 + us2)).randomise, v))
+        want = z if inside else fallback
+        if abs(out - want) > 64 * math.ulp(max(abs(z), abs(v), abs(fallback), abs(out))):
+            mism.append({"first_draw": z, "inside_domain": inside, "released": out, "expected": want})
+    pt.meas["map_mismatch"] = mism
+
+
 # =========================================================================================== one point
 
 def measure(pt):
@@ -218,12 +358,14 @@ def measure(pt):
         if s > 0 and math.isfinite(s):
             f = cl.truncated_laplace if pt.mech == "LaplaceTruncated" else cl.folded_laplace
             pt.law = f(x, d(s), d(p["lower"]), d(p["upper"]))
+            probe_map(pt)
     elif pt.mech == "LaplaceBoundedDomain":
         stored, used, prec = quiet(K2.measure_bounded_domain, p)
         s = used if (used == used and prec < 1e-7) else stored
         pt.meas = {"scale": s, "stored": stored, "prec": prec if used == used else 0.0}
         if s > 0 and math.isfinite(s) and p["lower"] < p["upper"]:
             pt.law = cl.bounded_domain_laplace(x, d(s), d(p["lower"]), d(p["upper"]))
+            probe_acceptance(pt)
     elif pt.mech == "LaplaceBoundedNoise":
         sc, bound, sc_m = K2.measure_bounded_noise(p)
         pt.meas = {"scale": sc_m if sc_m == sc_m else sc, "bound": bound}
@@ -397,6 +539,18 @@ def direct(ctx, pt):
             if not feq(rm[0], want, 1e-12, 1e-300):
                 emit(ctx, f"C19:{pt.mech}:mse-decomposition",
                               f"{desc}: mse({pt.value!r}) = {float(rm[0])!r} but variance + bias^2 = {want!r}", inp)
+    mm = pt.meas.get("map_mismatch")
+    if mm:
+        ref = (pt.law.moment(1, d(pt.value)) if pt.law is not None else None)
+        emit(ctx, f"C19:{pt.mech}:sampler-map" + (":numpy-backend" if pt.backend == "numpy" else ""),
+             f"{desc}: randomise({pt.value!r}) does not post-process the noisy value the way bias()/variance() assume: for the "
+             f"plain noisy value z = {mm[0].get('z', mm[0].get('first_draw'))!r} it releases {mm[0]['released']!r}, the "
+             f"{'clamp' if pt.mech == 'LaplaceTruncated' else 'reflection / acceptance'} map gives "
+             f"{mm[0].get('reference', mm[0].get('expected'))!r}; bias reported {rb[0]!r}, bias of the law rebuilt from the "
+             f"measured scale and map: {pt.meas['map_moments'][0] if pt.meas.get('map_moments') else 'n/a'} "
+             f"(reference-map law: {K2.fmt(ref) if ref is not None else 'n/a'})",
+             dict(inp, mismatches=mm))
+        return
     if tm is None:
         ctx.count("no_law")
         return
@@ -478,6 +632,49 @@ def monotone(ctx, pt, r):
                           {"mech": pt.mech, "params": p, "value": pt.value, "changed": name, "to": val})
 
 
+def numpy_backend_pass(ctx, good, every=2):
+    """the reported moments must also describe what randomise samples when random_state is a numpy RandomState (an int
+    seed): the mechanisms switch code path on AttributeError / TypeError of the generator.  The sampler's scale (and
+    post-processing map) is measured again through a scripted RandomState; when it differs from the SystemRandom
+    measurement the direct check is repeated on it."""
+    from ..core import Ctx
+    for i, pt in enumerate(good):
+        if pt.mech not in K2.NUMPY_BACKEND_MECHS or i % every:
+            continue
+        pt2 = Pt(pt.mech, pt.params, pt.value)
+        pt2.backend = "numpy"
+        try:
+            with K2.backend("numpy"):
+                measure(pt2)
+        except seams.ScriptExhausted:
+            ctx.count("numpy_backend_unmeasurable")
+            continue
+        except (ArithmeticError, ValueError, TypeError, AttributeError, RecursionError) as e:
+            ctx.disagree(f"moments.{pt.mech}.numpy-backend-raises", {"params": pt.params, "value": pt.value}, "moments",
+                         f"{type(e).__name__}: {e}")
+            continue
+        a = {k: v for k, v in pt.meas.items() if k in ("scale", "sigma", "half_width", "r", "bound", "prec")}
+        b_ = {k: v for k, v in pt2.meas.items() if k in ("scale", "sigma", "half_width", "r", "bound", "prec")}
+        same, key = K2.same_meas(a, b_)
+        ctx.case(None)
+        if same and not pt2.meas.get("map_mismatch"):
+            ctx.count("numpy_backend_same")
+            ctx.trace_ok()
+            continue
+        ctx.count("numpy_backend_differs")
+        s0 = Ctx(PROPERTY, ctx.tier, 0)
+        direct(s0, pt2)
+        for v in s0.violations:
+            sig = v["signature"]
+            if sig.endswith(":wrong-value"):
+                sig += ":numpy-backend"
+            emit(ctx, sig, "with random_state = a numpy RandomState (the `except AttributeError/TypeError` branch of "
+                           "randomise): " + v["what"], dict(v["data"], backend="numpy"))
+        if not s0.violations:
+            ctx.disagree(f"moments.{pt.mech}.numpy-backend", {"params": pt.params, "value": pt.value}, a, b_,
+                         note="the sampler's scale depends on the type of random_state")
+
+
 def gen_points(ctx, n):
     r = ctx.fork("points")
     names = list(WEIGHTS)
@@ -520,6 +717,7 @@ def run_points(ctx, pts, mono=True):
         direct(ctx, pt)
         if mono:
             monotone(ctx, pt, r.fork(i))
+    numpy_backend_pass(ctx, good)
     for pt in good[:40:7]:
         ctx.sample({"mechanism": pt.mech, "params": pt.params, "value": pt.value,
                     "reported": {k: (float(v[0]) if v[0] is not None else v[1]) for k, v in pt.rep.items()},
@@ -678,7 +876,12 @@ def replay(ctx, data):
         sign = -1 if dd["changed"] == "epsilon" else 1
         slack = 1e-9 * max(abs(v0), abs(v1))
         return (sign < 0 and v1 > v0 + slack) or (sign > 0 and v1 < v0 - slack) or v1 != v1
-    measure(pt)
+    if dd.get("backend") == "numpy":
+        pt.backend = "numpy"
+        with K2.backend("numpy"):
+            measure(pt)
+    else:
+        measure(pt)
     direct(ctx, pt)
     return len(ctx.violations) > before
 
